@@ -184,6 +184,29 @@ RETURN_OPCODES = {
     opcode.opmap.get("RETURN_CONST", RETURN_VALUE_OPCODE),
 }
 YIELD_VALUE_OPCODE = opcode.opmap["YIELD_VALUE"]
+# Python 3.11+ marks every point where a frame (re)starts with a RESUME
+# instruction whose argument says why: 0 at function entry, 1 after a yield,
+# 2 after a `yield from`, 3 after an `await`.
+RESUME_OPCODE = opcode.opmap.get("RESUME")
+RESUME_AFTER_AWAIT = 3
+
+
+def _suspended_on_await(code: CodeType, lasti: int) -> bool:
+    """Did the frame that stopped at the YIELD_VALUE at `lasti` suspend on an await?
+
+    Since Python 3.11 an await suspends the coroutine with the same YIELD_VALUE
+    instruction a generator's yield uses; the RESUME that follows it tells the
+    two apart.
+    """
+    if RESUME_OPCODE is None:
+        return False
+    co_code = code.co_code
+    resume = lasti + 2
+    return (
+        resume + 1 < len(co_code)
+        and co_code[resume] == RESUME_OPCODE
+        and (co_code[resume + 1] & 3) == RESUME_AFTER_AWAIT
+    )
 
 # A CodeFilter is a predicate that decides whether or not a the call for the
 # supplied code object should be traced.
@@ -262,7 +285,9 @@ class CallTracer:
         if trace is None:
             return
         elif last_opcode == YIELD_VALUE_OPCODE:
-            trace.add_yield_type(typ)
+            # a coroutine suspending on an await is not a yield
+            if not _suspended_on_await(frame.f_code, frame.f_lasti):
+                trace.add_yield_type(typ)
         else:
             if last_opcode in RETURN_OPCODES:
                 trace.return_type = typ
